@@ -98,20 +98,33 @@ def expectedNotReset : List Slot :=
 
 theorem reset_missing : missing written (resetAssigns ++ runInitialises) = expectedNotReset := by decide +kernel
 
-/-- of those, the slots a simulation is ASSUMED not to depend on at its start (hypothesis `hdep` below; read off the
-source, not derivable by the translator's ast rules; the rerun oracle on the real code is what checks it):
-`_backtrack` / `_which` are scratch fields of `evaluate()` / `is_control_action_required()` consumed in the same step;
-`_curve_coeffs` / `_coeffs_curve_points` memoise a function of the pump curve; `_inpfile` is the cached INP writer;
-`Rule._name` only renames; nothing in the simulators reads `Reservoir._leak_status`. -/
+/-- of those, the slots for which the translator CHECKS by ast (`Gen.notReadBeforeWrite`, evidence in the generated
+comment lines) that no run-time code path reads the value before assigning it: `_which` (assigned in
+`is_control_action_required` directly before every `return True`, read only in `run_control_action`, which every call
+site reaches through `ControlChecker.check`), the pump-curve memo `_curve_coeffs` / `_coeffs_curve_points` (read only
+under the key test against the curve's points). -/
+def checkedIgnorable : List Slot :=
+  (missing written (resetAssigns ++ runInitialises)).filter fun w => decide (w ∈ notReadBeforeWrite)
+
+theorem checkedIgnorable_eq : checkedIgnorable =
+    [⟨"Control", "_which"⟩, ⟨"HeadPump", "_coeffs_curve_points"⟩, ⟨"HeadPump", "_curve_coeffs"⟩, ⟨"Rule", "_which"⟩] := by
+  decide +kernel
+
+/-- the remaining not-reset slots a simulation is ASSUMED not to depend on at its start (hypothesis `hdep` below; the
+translator's rules do not establish it, the rerun oracle on the real code is what checks it):
+`_condition._backtrack` is assigned on every path of `evaluate()` by the condition classes that use it, but
+And/OrCondition read both children's value while `evaluate` short-circuits (harmless: composite conditions occur only in
+post-solve controls and rules, where backtracking is ignored); `Reservoir._leak_status` is read by the generic
+`node.leak_status` code but a reservoir has no leak model; `Rule._name` only renames; `_inpfile` is the cached INP writer
+of the EPANET path, never loaded by WNTRSimulator. -/
 def assumedIgnorable : List Slot :=
   [⟨"Reservoir", "_leak_status"⟩,
-   ⟨"Control", "_condition._backtrack"⟩, ⟨"Control", "_which"⟩,
-   ⟨"HeadPump", "_coeffs_curve_points"⟩, ⟨"HeadPump", "_curve_coeffs"⟩,
-   ⟨"Rule", "_condition._backtrack"⟩, ⟨"Rule", "_name"⟩, ⟨"Rule", "_which"⟩,
+   ⟨"Control", "_condition._backtrack"⟩,
+   ⟨"Rule", "_condition._backtrack"⟩, ⟨"Rule", "_name"⟩,
    ⟨"WaterNetworkModel", "_inpfile"⟩]
 
 /-- slots whose value at the start of a run does not matter -/
-def ignorable : List Slot := runInitialises ++ assumedIgnorable
+def ignorable : List Slot := runInitialises ++ checkedIgnorable ++ assumedIgnorable
 
 /-- slots a run writes that survive `reset_initial_values` and matter -/
 def notRestored : List Slot := missing written (resetAssigns ++ ignorable)
@@ -178,5 +191,37 @@ theorem equal_models_equal_results {V Res : Type} (R : List Slot) (sim : Sim V R
 example : cycles resetAssigns (fun _ _ => 1)
     (⟨fun _ => [(⟨0, ⟨"Pipe", "_user_status"⟩⟩, 0)], fun s => s ⟨0, ⟨"Pipe", "_user_status"⟩⟩⟩ : Sim Nat Nat) 3
     (fun _ => 1) = [1, 1, 1] := by decide +kernel
+
+
+/-! ## 4. EpanetSimulator -/
+
+theorem notReadBeforeWrite_written : ∀ x ∈ notReadBeforeWrite, x ∈ written := by decide +kernel
+
+theorem writtenByEpanet_written : ∀ x ∈ writtenByEpanet, x ∈ written := by decide +kernel
+
+/-- **decided on the regenerated tables**: on the model object, `EpanetSimulator.run_sim` (through `write_inpfile` on the same
+`wn`) can only assign the cached INP writer and the name of an unnamed rule -/
+theorem epanet_write_set : writtenByEpanet = [⟨"Rule", "_name"⟩, ⟨"WaterNetworkModel", "_inpfile"⟩] := by decide +kernel
+
+/-- … of which `to_dict` reads only `Rule._name` -/
+theorem epanet_definition_overlap : overlap writtenByEpanet toDictReads = [⟨"Rule", "_name"⟩] := by decide +kernel
+
+/-- the storage fields `to_dict` reads, except the rule name (which `wn.to_dict()` replaces by the registry key when it is
+empty, and `_write_rules` sets to exactly that key) -/
+def toDictReadsModuloRuleName : List Slot := toDictReads.filter fun r => decide (r ≠ ⟨"Rule", "_name"⟩)
+
+theorem epanet_overlap_modulo_rule_name : overlap writtenByEpanet toDictReadsModuloRuleName = [] := by decide +kernel
+
+/-- **epanet_run_preserves_definition.** Whatever an EpanetSimulator run writes on the model (any sequence of writes inside
+`writtenByEpanet`, no exclusion): every view of the definition that reads `to_dict`'s storage fields other than the rule
+name is unchanged — in particular element attributes, options, curves, patterns, and pump speeds. -/
+theorem epanet_run_preserves_definition {V D : Type} (f : State V → D) (hf : ReadsOnly toDictReadsModuloRuleName f)
+    (s : State V) (t : Trace V) (ht : t.within writtenByEpanet) : f (run s t) = f s :=
+  run_preserves_view writtenByEpanet toDictReadsModuloRuleName epanet_overlap_modulo_rule_name f hf s t ht
+
+theorem epanet_run_preserves_toDict {V : Type} (E : Elems) (s : State V) (t : Trace V)
+    (ht : t.within writtenByEpanet) :
+    toDict toDictReadsModuloRuleName E (run s t) = toDict toDictReadsModuloRuleName E s :=
+  epanet_run_preserves_definition _ (toDict_readsOnly _ E) s t ht
 
 end Wntr.Frame
